@@ -536,16 +536,17 @@ C11.manifest = {
             "average_clustering and directed graphs by the undirected-only functions (WrongMethod); SUBSET CONSISTENCY for "
             "triangles, generalized_degree, clustering (both kinds) and square_clustering: restricting node_names to any "
             "non-empty list returns the full computation's value for exactly those nodes; MODEL = DEFINITION for undirected "
-            "triangles and clustering: for every state passing an executable coherence test (node list duplicate-free, "
-            "neighbour query total, closed, symmetric) triangles(v) is the number of triangles through v and clustering(v) "
-            "= 2 tri/(d(d-1)) as a rational (sort / run-length / HashMap-collect lemmas + double counting). Tied to the "
+            "triangles, clustering and transitivity: for every state passing an executable coherence test (node list "
+            "duplicate-free, neighbour query total, closed, symmetric) triangles(v) is the number of triangles through v, "
+            "clustering(v) = 2 tri/(d(d-1)) and transitivity = 3 x triangles / connected triples as rationals (sort / "
+            "run-length / HashMap-collect lemmas + double counting). Tied to the "
             "code on every run: triangles, clustering (unweighted both kinds, and the weighted forms on perfect-cube "
             "weights where the cube roots are rational and the model exact), average_clustering (count_zeros both ways), "
             "transitivity, generalized_degree, square_clustering for node_names = None, every non-empty subset (sampled "
             "above 32), absent names, duplicates, the empty slice; in Coq every model value is also compared with the "
             "brute-force definition computed from the edge list (flag observation); a Python oracle recomputes every "
             "definition by brute force on the implementation's output and checks [0,1], subset consistency and refusals.",
-    "note": "Validated per case, not proved unbounded: model = definition for transitivity, generalized_degree, "
+    "note": "Validated per case, not proved unbounded: model = definition for generalized_degree, "
             "square_clustering (Lind) and directed clustering (Fagiolo), the [0,1] range of the directed and square "
             "coefficients, and that the adjacency the functions read equals the edge list. Weighted forms: modelled (not "
             "proved) and compared only on weights that are perfect cubes (IEEE cbrt is not modelled; 1e-9 tolerance); "
